@@ -4,6 +4,7 @@ import ExaModel.Props.C01
 #print axioms Exa.Props.C01.c01_defaults
 #print axioms Exa.Props.C01.c01_self
 #print axioms Exa.Props.C01.c01_self_resolves
+#print axioms Exa.Props.C01.c01_self_per_session
 #print axioms Exa.Props.C01.c01_trans_def
 #print axioms Exa.Props.C01.c01_astrans
 #print axioms Exa.Props.C01.c01_raised_iff
